@@ -150,7 +150,7 @@ def coq_project_files():
     return srcs
 
 
-def coq_check_properties(vfile, timeout=600):
+def coq_check_properties(vfile, timeout=3000):
     """Re-compile the Properties file itself on every run (it only contains
     `Theorem .. exact lemma. Qed.` + Print Assumptions) and parse the assumptions.
     Returns dict(ok, log, theorems=[names], assumptions={thm: [axioms]}, bad_axioms=[...])."""
@@ -218,7 +218,7 @@ def count_obligations(vfiles):
 
 
 # ---------------------------------------------------------------- OCaml ------
-def build_model_runner(pid, extract_v, runner_ml, module, timeout=600):
+def build_model_runner(pid, extract_v, runner_ml, module, timeout=3000):
     """coqc the *_Extract.v in .build/extract/<pid>/ (the .ml lands there) and link the runner.
     `module` is the OCaml module name of the extracted file (e.g. 'C15_model')."""
     d = os.path.join(BUILD, 'extract', pid)
@@ -240,7 +240,7 @@ def build_model_runner(pid, extract_v, runner_ml, module, timeout=600):
         rc, out2 = sh('ocamlfind ocamlopt -O2 -w -a -package zarith -linkpkg %s.mli %s.ml %s -o %s 2>&1 || '
                       'ocamlfind ocamlopt -w -a -package zarith -linkpkg %s.mli %s.ml %s -o %s'
                       % (base, base, os.path.basename(drv), exe, base, base, os.path.basename(drv), exe),
-                      cwd=d, timeout=600)
+                      cwd=d, timeout=3000)
         if rc != 0:
             return None, out + out2
     return exe, out + out2
@@ -251,7 +251,7 @@ CXXFLAGS = '-std=c++14 -O1 -g -DNDEBUG -I%s/include -iquote %s -Wno-deprecated-d
 ASAN = '-fsanitize=address,undefined -fno-sanitize-recover=all -fno-omit-frame-pointer'
 
 
-def cxx_build(pid, sources, extra='', asan=False, libphoton=False, out=None, timeout=900):
+XX
     """compile a harness against /repo's current working tree; returns (exe|None, log)"""
     os.makedirs(os.path.join(BUILD, 'bin'), exist_ok=True)
     exe = out or os.path.join(BUILD, 'bin', pid + '_impl')
@@ -265,7 +265,7 @@ def cxx_build(pid, sources, extra='', asan=False, libphoton=False, out=None, tim
     return (exe if rc == 0 else None), log
 
 
-def photon_lib(timeout=1500):
+def photon_lib(timeout=3600):
     """Hook-enabled libphoton.so built from /repo's CURRENT working tree (incremental, ninja).
     Returns the directory holding libphoton.so."""
     d = os.path.join(BUILD, 'photon')
@@ -274,7 +274,7 @@ def photon_lib(timeout=1500):
             os.makedirs(d, exist_ok=True)
             rc, out = sh('cmake -S %s -B %s -G Ninja -DCMAKE_BUILD_TYPE=RelWithDebInfo '
                          '-DCMAKE_CXX_FLAGS="-Wno-error -DPHOTON_VERIF" -DPHOTON_BUILD_TESTING=OFF' % (REPO, d),
-                         timeout=600)
+                         timeout=3000)
             if rc != 0:
                 raise RuntimeError('cmake failed:\n' + out[-3000:])
         rc, out = sh('ninja -C %s photon_shared' % d, timeout=timeout)
